@@ -110,12 +110,26 @@ def s2(run: Run, prog: Program):
         if m is None:
             raise AnalysisError(f"{cname}.{mname} vanished")
         inst = f"{cname}.{mname}"
+        # a shared private constructor helper (with optional parameters) is
+        # analysed as the statements it stands for
+        import copy as _copy
+        from .idioms import inline_simple_helpers, resolve_default_idiom, inline_locals
+
+        def _res(hn, _C=C):
+            h = prog.lookup(_C, hn)
+            return h.node if h is not None and hn.startswith("_") and \
+                not hn.startswith("__") else None
+        m = _copy.copy(m)
+        m.node = resolve_default_idiom(inline_simple_helpers(m.node, _res))
         ctors = [c for c in ast.walk(m.node) if isinstance(c, ast.Call)
                  and isinstance(c.func, ast.Name) and c.func.id in prog.classes
                  and prog.is_subclass(prog.classes[c.func.id], "Network")]
         if len(ctors) != 1:
             raise AnalysisError(f"{m.where}: expected one constructor call in {inst}")
-        kw = {k.arg: ast.unparse(k.value) for k in ctors[0].keywords if k.arg}
+        kw = {k.arg: ast.unparse(inline_locals(m.node, k.value) if
+                                 isinstance(k.value, ast.Name) and
+                                 k.value.id.startswith("_h") else k.value)
+              for k in ctors[0].keywords if k.arg}
         # A
         a = kw.get("adjacency", "")
         defs = {ast.unparse(s.targets[0]): ast.unparse(s.value)
@@ -241,6 +255,12 @@ def s3_fresh(run: Run, prog: Program, net, sv):
     save_attaches = any(isinstance(c, ast.Call) and isinstance(c.func, ast.Attribute)
                         and c.func.attr == "set_attribute_values"
                         for c in ast.walk(sv.node))
+    if not save_attaches:
+        # ... or through a private helper it calls (effect tree, callees inlined)
+        try:
+            save_attaches = any(attach(e) for e in iter_events(prog.tree(sv, net, {})))
+        except AnalysisError:
+            pass
     run.oblige("S3", "Network.save:attaches-node-weights", True, nontrivial=False,
                sample={"save_attaches_on_every_path": save_attaches})
     if save_attaches:
@@ -329,6 +349,25 @@ def s3(run: Run, prog: Program):
                         return None
                     out += r
                 return out
+            if isinstance(e, ast.Name) and e.id in _f.defaults():
+                # a parameter with a string default that no call in the package
+                # overrides
+                d = _f.defaults()[e.id]
+                pos = _f.params.index(e.id) if e.id in _f.params else None
+                overridden = False
+                for g in prog.functions():
+                    for c_ in ast.walk(g.node):
+                        if isinstance(c_, ast.Call) and (
+                                (isinstance(c_.func, ast.Attribute) and
+                                 c_.func.attr == _f.name) or
+                                (isinstance(c_.func, ast.Name) and c_.func.id == _f.name)):
+                            if any(k.arg == e.id for k in c_.keywords) or (
+                                    pos is not None and len(c_.args) > pos - (
+                                        1 if _f.kind == "method" else 0)):
+                                overridden = True
+                if isinstance(d, ast.Constant) and isinstance(d.value, str) and \
+                        not overridden:
+                    return (d.value,)
             if isinstance(e, ast.Name):
                 r = prog.resolve_name(_f.module, e.id)
                 if r and r[0] == "value" and isinstance(r[1], ast.Constant) and \
@@ -485,6 +524,16 @@ def s3(run: Run, prog: Program):
                     if h is not None and h is not fn and \
                             _symmetrises_when_undirected(h.node, h.params, ()):
                         # the helper must be told the directedness of this network
+                        passed = [ast.unparse(a_) for a_ in c.args] + \
+                            [ast.unparse(k.value) for k in c.keywords]
+                        if any(p_.endswith("directed") or p_ in flags for p_ in passed):
+                            ok = True
+                # ... or in a module-level helper called by its bare name
+                elif isinstance(c, ast.Call) and isinstance(c.func, ast.Name):
+                    r_ = prog.resolve_name(fn.module, c.func.id)
+                    h = r_[1] if r_ and r_[0] == "func" else None
+                    if h is not None and c.func.id.startswith("_") and \
+                            _symmetrises_when_undirected(h.node, h.params, ()):
                         passed = [ast.unparse(a_) for a_ in c.args] + \
                             [ast.unparse(k.value) for k in c.keywords]
                         if any(p_.endswith("directed") or p_ in flags for p_ in passed):
